@@ -439,12 +439,142 @@ pub fn run_afar(c: &Case) -> Obs {
 }
 
 // ---------------------------------------------------------------------------------------------
+// ahc: the HEADER container's header reader (header_reader().container_reader() + discard_to_end())
+//   ahc <data> <sizes> <with_pending> <chunk>     obs: sync=<r> async=<r>,  r = ok/<bytes discarded>/<bytes left> | e<stop code>
+// model: NV.Async.CramHeaderContainer (sync_hc_case / async_hc_case).  Lengths and landmark counts stay
+// small (the extracted model counts in unary nat).
+
+pub fn gen_ahc(rng: &mut Rng, w: &mut CaseWriter) {
+    let nt = rng.below(60) as usize;
+    let tail = rng.bytes(nt);
+    let len: i32 = match rng.below(12) {
+        0 => -1,
+        1 => i32::MIN,
+        2 => tail.len() as i32 + rng.range(1, 40) as i32, // longer than what follows
+        3 => rng.range(100, 3000) as i32,
+        4 => 0,
+        _ => rng.below(tail.len() as u64 + 1) as i32,
+    };
+    let mut h = len.to_le_bytes().to_vec();
+    let junk = rng.below(256) as u8;
+    let mc = |rng: &mut Rng| if rng.chance(1, 4) { rng.below(6) as usize } else { 0 };
+    let any = |rng: &mut Rng| -> i32 {
+        match rng.below(6) {
+            0 => -1,
+            1 => -2,
+            2 => i32::MIN,
+            3 => pick_i32(rng),
+            _ => rng.below(300) as i32,
+        }
+    };
+    for _ in 0..4 {
+        let v = any(rng);
+        let k = mc(rng);
+        h.extend(itf8(v, k, junk));
+    }
+    for _ in 0..2 {
+        let v: i64 = match rng.below(5) {
+            0 => -1,
+            1 => i64::MIN,
+            2 => rng.next() as i64,
+            _ => rng.below(100000) as i64,
+        };
+        let k = if rng.chance(1, 4) { rng.below(10) as usize } else { 0 };
+        h.extend(ltf8(v, k));
+    }
+    let v = any(rng);
+    let k = mc(rng);
+    h.extend(itf8(v, k, junk)); // block count
+    let nl: i32 = match rng.below(12) {
+        0 => -1,
+        1 => i32::MIN,
+        2 => rng.range(4, 50) as i32, // more than present
+        _ => rng.below(4) as i32,
+    };
+    let k = mc(rng);
+    h.extend(itf8(nl, k, junk));
+    for _ in 0..nl.clamp(0, 3) {
+        let v = any(rng);
+        let k = mc(rng);
+        h.extend(itf8(v, k, junk));
+    }
+    let c = crc32(&h);
+    h.extend((if rng.chance(1, 8) { c ^ (1 << rng.below(32)) } else { c }).to_le_bytes());
+    h.extend(tail);
+    if rng.chance(1, 5) {
+        let k = rng.below(h.len() as u64 + 1) as usize;
+        h.truncate(k);
+    }
+    let (sizes, wp) = gen_script(rng);
+    w.push("ahc", vec![hex(&h), sizes, wp, rng.pick(&[1usize, 7, 32, 4096]).to_string()]);
+}
+
+pub fn run_ahc(c: &Case) -> Obs {
+    use tokio::io::AsyncReadExt;
+    let data = c.b(0);
+    let sizes = parse_sizes(&c.args[1]);
+    let with_pending = c.u(2) == 1;
+    let total = data.len();
+    let s = run_guarded(|| {
+        let mut r = noodles_cram::io::Reader::new(&data[..]);
+        let n = {
+            let mut hr = r.header_reader();
+            let mut cr = match hr.container_reader() {
+                Ok(cr) => cr,
+                Err(e) => return format!("e{}", stop_code(&e)),
+            };
+            match cr.discard_to_end() {
+                Ok(n) => n,
+                Err(e) => return format!("e{}", stop_code(&e)),
+            }
+        };
+        format!("ok/{n}/{}", r.get_ref().len())
+    });
+    let sched = Sched::explicit(sizes, with_pending);
+    let tripped = sched.tripped.clone();
+    let src = AdvReader::new(data.clone(), sched);
+    let a = run_guarded(move || {
+        block_on_pool(1, async move {
+            let mut r = noodles_cram::r#async::io::Reader::new(src);
+            let n = {
+                let mut hr = r.header_reader();
+                let mut cr = match hr.container_reader().await {
+                    Ok(cr) => cr,
+                    Err(e) => return format!("e{}", stop_code(&e)),
+                };
+                match cr.discard_to_end().await {
+                    Ok(n) => n,
+                    Err(e) => return format!("e{}", stop_code(&e)),
+                }
+            };
+            let mut rest = Vec::new();
+            match r.get_mut().read_to_end(&mut rest).await {
+                Ok(_) => format!("ok/{n}/{}", rest.len()),
+                Err(e) => format!("rest-e{}", stop_code(&e)),
+            }
+        })
+    });
+    if tripped.load(Ordering::SeqCst) {
+        return Obs::fail("-", "async-cram-hang", "poll limit reached");
+    }
+    let obs = format!("sync={s} async={a}");
+    if s != a {
+        return Obs::fail(obs, "async-cram-header-container-open-differs", format!("sync={s} async={a} data={}", hex(&data)));
+    }
+    Obs::ok(obs, s.starts_with("ok/") && total >= 20)
+}
+
+// ---------------------------------------------------------------------------------------------
 
 pub fn generate(rng: &mut Rng, tier: &str, w: &mut CaseWriter) {
     let thorough = tier == "thorough";
     let n = if thorough { 3000 } else { 200 };
     for _ in 0..n {
         gen_acram(rng, w);
+    }
+    let n = if thorough { 3000 } else { 250 };
+    for _ in 0..n {
+        gen_ahc(rng, w);
     }
     let n = if thorough { 3000 } else { 250 };
     for _ in 0..n {
@@ -455,6 +585,7 @@ pub fn generate(rng: &mut Rng, tier: &str, w: &mut CaseWriter) {
 pub fn run(c: &Case) -> Option<Obs> {
     Some(match c.kind.as_str() {
         "acram" => run_acram(c),
+        "ahc" => run_ahc(c),
         "afar" => run_afar(c),
         _ => return None,
     })
